@@ -182,6 +182,9 @@ def check_case(case, acc=None) -> Outcome:
             n_nontrivial += nontrivial
             if nontrivial and acc is not None:
                 acc.nt.add(hash((core.case_hash(case), kind_, k)) & 0xFFFFFFFFFFFF)
+                if len(acc.samples) < 4 and (not acc.samples or n_points % 11 == 0):
+                    acc.samples.append({"program": prog, "optimize": case["optimize"], "resume_executor": case["resume_executor"], "crash_point": [kind_, k],
+                                        "T_tasks": T, "W_chunk_writes": W, "partially_written_arrays": sorted(partial), "complete_ops": sorted(ops_complete)})
             ts.state.clear()
             # ---- resumed run
             rn = case["resume_executor"]
